@@ -259,6 +259,55 @@ def run(ctx):
         rep.check(v in live, "C06.R4", "live:ReadError::%s" % v, "validate_wsc can still reject with %s" % v,
                   "validate_wsc no longer constructs ReadError::%s (a validation was removed)" % v, site=vw.loc())
 
+    # ---- R5 (round 5)
+    rep.rule("C06.R5", "representation independence of the from-scratch root; accumulator/store agreement on OpenPortal(Empty)")
+    # compute_state_root walks the adjacency-bucket MAP: an empty bucket left behind is hashed as `from || 0`, so the root would
+    # depend on storage history.  Representation invariant: whoever shrinks a bucket tests it for emptiness afterwards (and the
+    # owning method removes the key) — on every path from the shrink to the end of that body.
+    SHRINK = r"Vec::<.*>::(retain|remove|swap_remove|pop|drain|truncate)$"
+    n_shr = 0
+    for g in sorted(prog.fns.values(), key=lambda g: g.id):
+        if not g.id.startswith("warp_core::graph::GraphStore::") or "::tests" in g.id:
+            continue
+        for bi in g.call_sites(SHRINK):
+            pl = op_place(g.blocks[bi]["t"]["args"][0])
+            ty = str(g.locals[pl[0]]) if pl is not None else ""
+            if not re.search(r"Vec<warp_core::(record::EdgeRecord|ident::EdgeId)>", ty):
+                continue
+            n_shr += 1
+            emp = g.call_sites(r"Vec::<.*>::is_empty$|Vec<.*>::is_empty$|\[T\]>::is_empty$")
+            # "nothing was removed" (len unchanged) exits are exempt: that call did not empty the bucket
+            unchanged = []
+            for (cb, kind, a_, b_, res, line) in comparisons(g):
+                if str(kind).lower() == "eq" and all(any(x[0] == "call" and x[1].endswith("::len") for x in near_origins(g, o)) for o in (a_, b_)):
+                    unchanged += [(e["sw"], e["true"]) for e in switch_edges_on_local(g, res)]
+            w_ = g.path([bi], g.return_blocks(), avoid_blocks=emp, avoid_edges=unchanged) if emp else [bi]
+            outer = g
+            while outer.is_closure() and prog.fns.get(outer.rec.get("parent")) is not None:
+                outer = prog.fns[outer.rec.get("parent")]
+            removes = outer.call_sites(r"BTreeMap::<.*>::remove$|BTreeMap<.*>::remove$")
+            rep.check(w_ is None and bool(removes), "C06.R5", "bucket-shrink-tests-emptiness:%s@%s" % (g.id.replace("warp_core::graph::GraphStore::", ""), (g.callee_of(g.blocks[bi]["t"]) or "").rsplit("::", 1)[-1]),
+                      "the bucket is tested for emptiness after shrinking; the method can drop the key",
+                      "%s shrinks an adjacency bucket (line %s) and can finish without testing it for emptiness / dropping its key: an empty bucket stays in the map, and "
+                      "compute_state_root hashes it as `from || 0` — the root then depends on storage history, and disagrees with the accumulator" % (g.name, g.block_line(bi)), site=g.loc(g.block_line(bi)))
+    rep.check(n_shr >= 6, "C06.R5", "bucket-shrink:sites", "%d bucket-shrinking sites examined" % n_shr, "only %d bucket-shrinking sites found (6 confirmed)" % n_shr, site="warp_core::graph::GraphStore")
+    # the accumulator applies OpenPortal(Empty) like the store does: the child's root node row is (re)written whenever the op is
+    # applied — the store side re-inserts a missing root on an existing instance (ensure_child_root).  If the node write can be
+    # bypassed inside the Empty arm, the two independent state roots disagree after open / delete root / re-open.
+    ap = prog.fn("warp_core::snapshot_accum::SnapshotAccumulator::apply_open_portal")
+    node_ins = []
+    for bi in ap.call_sites(r"BTreeMap::<.*>::insert$|BTreeMap<.*>::insert$|Entry.*::or_insert|VacantEntry.*::insert$"):
+        pl = op_place(ap.blocks[bi]["t"]["args"][0])
+        if pl is not None and "NodeRowParts" in str(ap.locals[pl[0]]):
+            node_ins.append(bi)
+    arms = [a for (_, a, _, _) in enum_switches(ap, "warp_core::tick_patch::PortalInit") if "Empty" in a]
+    rep.check(bool(node_ins) and bool(arms), "C06.R5", "accumulator-open-portal:anchors", "node-row insert and the Empty arm found", "node inserts=%d Empty arms=%d" % (len(node_ins), len(arms)), site=ap.loc())
+    if node_ins and arms:
+        w_ = ap.path([arms[0]["Empty"]], ap.return_blocks(), avoid_blocks=node_ins)
+        rep.check(w_ is None, "C06.R5", "accumulator-open-portal:empty-arm-always-writes-the-root", "every path through the Empty arm writes the child's root node row",
+                  "SnapshotAccumulator::apply_open_portal can leave the Empty arm without writing the child root's node row (%s), while the store side (apply_open_portal + "
+                  "ensure_child_root) always ends with the root present: the two state roots disagree after open, delete root, re-open" % ap.describe_path(w_), site=ap.loc())
+
 
 def ctx_baseline(name, current):
     from ..baselines import baseline
